@@ -10,9 +10,9 @@ CLAIMED = {
              note='A-PY subset semantics, A-ORACLE (user expressions pure apart from RBQL callables), A-EXEC, A-WRITER interface contract for user writers; bounded: translate_select_expression / replace_star_vars / translate_except_expression (regex)'),
  'C02': dict(cat='proof', ref='5/C02', text='TopWriter, UniqWriter, UniqCountWriter, SortedWriter (__init__/write/finish) are proved for all record sequences against take / dedup_first / count / stable-sort-permutation specs with ghost offered sequences, typestate and frames; chain construction and TOP/LIMIT/DISTINCT extraction have bounded stand-ins only',
              note='A-SORT (sorted() is the stable permutation, validated boundedly), A-WRITER, A-PY; termination clause read as: no pull after a refused write (DESIGN C02)'),
- 'C04': dict(cat='proof', ref='5/C04', text='safe_join_get and the join data structures are proved against the pairing spec; join expression parsing has a bounded stand-in',
+ 'C04': dict(cat='proof', ref='5/C04', text='key extraction (single/multi, NR components, short-record errors), get_join_records, Inner/Left/StrictLeft joiners and the generated JOIN select and UPDATE loops are proved against the pairing spec join_pairs_for / jsel_out for all tables and expressions; HashJoinMap.build and join expression parsing have bounded stand-ins',
              note='A-PY, A-DICT; bounded: parse_join_expression / resolve_join_variables text handling'),
- 'C05': dict(cat='proof', ref='5/C05', text='safe_set (post, exceptional post, frame, store permission) proved for all records; generated update loops and text translation: see evidence',
+ 'C05': dict(cat='proof', ref='5/C05', text='safe_set and the generated UPDATE loops (simple and JOIN; WHERE embedded as `x or y`) are proved for all tables and right-hand sides: one record per input record, only assigned fields change, RHS see original values, NU counts, errors name the record; assignment-list translation has a bounded stand-in',
              note='A-PY, A-ORACLE; bounded: translate_update_expression'),
  'C06': dict(cat='proof', ref='5/C06', text='store-permission obligations (no store into a source row or an offered record) and frame clauses on every verified function; list sources additionally checked boundedly end to end',
              note='A-PY, A-DEP for pandas/sqlite/CSV files'),
